@@ -105,6 +105,8 @@ def expressions(tier: str) -> List[str]:
         for t, e in (("a", "b"), ("1", "0"), ("a + 1", "b - 1"), ("1.5", "2.5"), ("a", "-a")):
             out.append(f"{t} if {c} else {e}")
     # str / len / f-strings
+    # backslashes and quotes inside literals and f-string text
+    out += ['"C:\\\\temp\\\\new"', '"a\\\\nb"', 'f"x\\\\{a}"', '"tab\\\\there"', '"q\\"uote"', "'s\\\\'", '"\\\\"', 'f"{a}\\\\{b}\\\\"', '"%d %s \\\\d"', 'len("\\\\n")']
     out += ['str(a)', 'str(a + b)', 'len("abc")', 'len("")', 'f"a={a}"', 'f"{a}{b}"', 'f"{a + b}|{a * 2}|"', 'f"x"', 'f"{1.5}"',
             'f"v={a if a > b else b}"', '"lit"', "'single'", '"a" + "b"', 'str(a) + "!"', '"<" + str(b) + ">"']
     # depth 2: one nested operand
@@ -328,6 +330,8 @@ def _k_blocks(depth: int, in_loop: bool, tier: str) -> Iterator[List[str]]:
         yield [f"k{depth} = 0", f"while k{depth} < 3:", f"    k{depth} += 1", f"    if k{depth} == 1:", "        w = y", "    mon.write(w)", "    w = w + 1"]
         yield [f"for i{depth} in range(2):", f"    for j{depth} in range(2):", f"        if j{depth} == 0 and i{depth} == 0:", "            w = 7", "        mon.write(w)", "        w += 1"]
         yield [f"for i{depth} in range(3):", "    try:", f"        if i{depth} == 0:", "            w = x", "    except:", "        pass", "    mon.write(w)"]
+        yield [f"for i{depth} in range(3):", f"    if i{depth} >= 0:", f"        if i{depth} == 0:", "            w = 7", "        mon.write(w)"]
+        yield [f"k{depth} = 0", f"while k{depth} < 3:", f"    k{depth} += 1", f"    if k{depth} > 0:", f"        for j{depth} in range(2):", f"            if j{depth} + k{depth} == 1:", "                w = y", "    mon.write(w)"]
     for tmpl in K_LOOPVAR:
         lv = [ln.replace("{d}", str(depth)) for ln in tmpl]
         yield [f"for i{depth} in range(3):"] + common.indent(lv + [f"mon.write(i{depth})"])
@@ -371,6 +375,10 @@ F_DEFS = {
     "docfn": ["def docfn(v):", '    """Report the value', '    on the serial line."""', "    mon.write(v)", "    return v + 1"],
     "docfn2": ["def docfn2(v):", "    \'\'\'one", "    two", "    three\'\'\'", "    v = v * 2", "    return v"],
     "shadow": ["def shadow(v):", "    x = v + 1", "    y = x * 2", "    return y"],
+    "shadow_tuple": ["def shadow_tuple(v):", "    x, y = v - 1, v + 1", "    return x * y"],
+    "shadow_for": ["def shadow_for(v):", "    t = 0", "    for x in range(3):", "        t = t + x * v", "    y, t = t, 0", "    return y"],
+    "mixret": ["def mixret(v):", "    if v < 0:", "        return 0", "    return (10 - v) / 8"],
+    "mixret3": ["def mixret3(v):", "    if v < 0:", "        return 0", "    elif v == 0:", "        return True", "    return v / 4"],
     "shadow_loop": ["def shadow_loop(v):", "    x = 0", "    for y in range(3):", "        x += v", "    return x"],
     "setg": ["def setg():", "    global g", "    g = 120"],
     "noisy": ["def noisy(v):", "    mon.write(v)", "    return v + 1"],
@@ -401,6 +409,10 @@ F_CALLS = [
     (["inc", "add"], ["if inc(a) > b:", "    x = add(a, b)"]),
     (["bump"], ["bump()", "bump()"]),
     (["shadow"], ["mon.write(shadow(a))", "mon.write(x)", "mon.write(y)"]),
+    (["shadow_tuple"], ["mon.write(shadow_tuple(a))", "mon.write(x)", "mon.write(y)"]),
+    (["shadow_for"], ["mon.write(shadow_for(b))", "mon.write(x + y)"]),
+    (["mixret"], ["mon.write(mixret(a))", "x = int(mixret(b) * 10)"]),
+    (["mixret3"], ["mon.write(mixret3(a) + mixret3(b))", "if mixret3(a) > 0.3:", "    y = 1"]),
     (["shadow_loop"], ["x = x + shadow_loop(b)"]),
     (["shadow", "bump"], ["bump()", "mon.write(shadow(x))", "bump()"]),
     (["docfn"], ["x = docfn(a)"]),
@@ -435,6 +447,8 @@ def gen_F(tier: str) -> Iterator[dict]:
         defs = [ln for n in names for ln in F_DEFS[n]]
         yield {"id": f"F:{i}:setup", "space": "F", "src": common.script(init + stmts + obs, defs=defs), "runs": _inputs(pairs, [0])}
         yield {"id": f"F:{i}:loop", "space": "F", "src": common.script(init, stmts + obs, defs=defs), "runs": _inputs(pairs[:2], [2])}
+        # the helpers are defined AFTER the sketch variables exist (names they bind locally collide with declared globals)
+        yield {"id": f"F:{i}:latedef", "space": "F", "src": common.script(init + defs + stmts + obs, stmts + obs), "runs": _inputs(pairs[:2], [0, 2])}
     # pairs of call sites (two statements, possibly sharing helpers)
     for (i, (n1, s1)), (j, (n2, s2)) in itertools.product(singles, repeat=2):
         if tier != "thorough" and (i + j) % 3:
